@@ -14,7 +14,7 @@ import random
 import re
 import xml.etree.ElementTree as ET
 
-from vlib import env, fed, mdgen, gen
+from vlib import env, fed, mdgen, gen, xmlkit as xk
 
 PROPERTY = "C07"
 LEVEL = "exploration"
@@ -113,11 +113,66 @@ def gen_cases(tier, seed):
                     continue
                 cid = "%s|%s|%s|%s|%s" % (pol, decl, cat, call, shape)
                 cases.append({"id": cid, "sig": [pol, decl, cat, call, shape], "policy": pol, "decl": decl, "cat": cat, "call": call, "shape": shape})
+                # the optional arguments of the two entry points select other code paths (queried attributes of an AttributeQuery,
+                # encryption, PEFIM advice, signing, the request_response alias); the release rule is the same on all of them
+                if shape == "full" or tier == "thorough":
+                    for opt in CALL_OPTS[call]:
+                        if tier == "quick" and rng.random() < 0.5:
+                            continue
+                        cases.append({"id": cid + "|" + opt, "sig": [pol, decl, cat, call, shape, opt], "policy": pol, "decl": decl, "cat": cat, "call": call,
+                                      "shape": shape, "callopt": opt})
     for pol in SEQ_POLICIES:
         for k in range(3 if tier == "quick" else 20):
             cases.append({"id": "sequence|%s|%d" % (pol, k), "sig": ["sequence", pol, k], "kind": "sequence", "policy": pol, "k": k,
                           "len": 16 if tier == "quick" else 60})
     return cases
+
+
+CALL_OPTS = {"authn": ["encrypted", "pefim", "signed", "alias", "name-id-given"],
+             "attribute": ["query-names-uri", "query-names-basic", "query-values", "query-one-forbidden", "signed"]}
+
+
+def call_kwargs(case, ident, rng):
+    """extra keyword arguments for the entry point, per caller option"""
+    from saml2_tophat import saml
+    opt = case.get("callopt")
+    to, fro = _to_map()
+    kw = {}
+    if opt == "encrypted":
+        kw = {"encrypt_assertion": True}
+    elif opt == "pefim":
+        kw = {"pefim": True, "encrypted_advice_attributes": True, "encrypt_assertion": False, "sign_assertion": True}
+    elif opt == "signed":
+        kw = {"sign_assertion": True, "sign_response": True}
+    elif opt == "name-id-given":
+        kw = {"name_id": saml.NameID(format=saml.NAMEID_FORMAT_PERSISTENT, text="subject-7", sp_name_qualifier=fed.SP_EID)}
+    elif opt and opt.startswith("query-"):
+        names = sorted(ident)
+        if opt == "query-one-forbidden":
+            names = [rng.choice(names)]
+        attrs = []
+        for n in names:
+            if opt == "query-names-basic":
+                a = saml.Attribute(name=n, name_format=saml.NAME_FORMAT_BASIC)
+            else:
+                a = saml.Attribute(name=to.get(n, n), name_format=saml.NAME_FORMAT_URI, friendly_name=n)
+            if opt == "query-values":
+                a.attribute_value = [saml.AttributeValue(text=v) for v in ident[n]]
+            attrs.append(a)
+        kw = {"attributes": attrs}
+    return kw
+
+
+def opened(xml):
+    """the response text with every EncryptedData opened with the SP's private key (harness-side, through the driver)"""
+    for _ in range(4):
+        if "EncryptedData" not in xml:
+            break
+        rc, err, out = xk.decrypt(xml, fed.key(2)[0])
+        if rc != 0 or not out:
+            return None
+        xml = out if isinstance(out, str) else out.decode("utf-8")
+    return xml
 
 
 SEQ_SPS = [
@@ -259,17 +314,23 @@ def run_case(case, ctx):
     idp = _idp(ctx, case["policy"], case["decl"], case["cat"])
     rng = random.Random("%s/%s" % (ctx.seed, case["id"]))
     ident = base_identity(rng, case["shape"])
+    kw = {"sign_response": False, "sign_assertion": False}
+    kw.update(call_kwargs(case, ident, rng))
     try:
         if case["call"] == "authn":
-            resp = idp.create_authn_response(dict((k, list(v)) for k, v in ident.items()), "id-req-1", fed.ACS_POST, fed.SP_EID, userid="u1",
-                                             authn=fed.AUTHN, sign_response=False, sign_assertion=False)
+            fn = idp.create_authn_request_response if case.get("callopt") == "alias" else idp.create_authn_response
+            resp = fn(dict((k, list(v)) for k, v in ident.items()), "id-req-1", fed.ACS_POST, fed.SP_EID, userid="u1", authn=fed.AUTHN, **kw)
         else:
-            resp = idp.create_attribute_response(dict((k, list(v)) for k, v in ident.items()), "id-req-1", fed.ACS_POST, fed.SP_EID, userid="u1",
-                                                 sign_response=False, sign_assertion=False)
+            resp = idp.create_attribute_response(dict((k, list(v)) for k, v in ident.items()), "id-req-1", fed.ACS_POST, fed.SP_EID, userid="u1", **kw)
         xml = "%s" % resp
         exc = None
     except Exception as e:
         xml, exc = None, e
+    if xml is not None and "EncryptedData" in xml:
+        clear = opened(xml)
+        if clear is None:
+            return {"outcome": "ciphertext-not-opened", "nontrivial": False, "violations": [], "counters": {"ciphertext_not_opened": 1}}
+        xml = clear
     if xml is None:
         # raising is a refusal: nothing was released
         return {"outcome": "raised:" + type(exc).__name__, "nontrivial": False, "violations": [], "counters": {"idp_raised": 1},
@@ -296,8 +357,8 @@ def judge(case, ident, xml, eid, prefix=""):
         rules.append("attribute-restrictions")
     if declared is not None and ent is None:
         rules.append("sp-declaration")
-    desc = prefix + "policy=%s declaration=%s categories=%s call=%s identity=%s status=%s" % (
-        case["policy"], case["decl"], case["cat"], case["call"], case["shape"], (status or "").split(":")[-1])
+    desc = prefix + "policy=%s declaration=%s categories=%s call=%s%s identity=%s status=%s" % (
+        case["policy"], case["decl"], case["cat"], case["call"], ("[%s]" % case["callopt"]) if case.get("callopt") else "", case["shape"], (status or "").split(":")[-1])
     if not success and released:
         viol.append({"key": "C07/error-response-carries-attributes", "what": desc + " released %r" % [r[0] for r in released]})
     n_rel = 0
